@@ -93,7 +93,7 @@ theorem mapM_some {β γ} (g : β → Option γ) (h : β → γ) (l : List β) (
 /-- rank `r` of a complete run: its rows are the rows of its slice of the zipped (function, stage-1 row) list -/
 theorem fisherRank_eq (nan zero : α) (isBad : α → Bool) (mp : Nat) (tryInt : Bool)
     (o1 o2 : φ → α × List α → Out (Conv α)) (fs : List φ) (table : List (α × List α)) (P r : Nat)
-    (h4 : 4 ≤ mp) (hlen : table.length = fs.length) (hc : NoCrash isBad tryInt o1 o2 fs table) :
+    (h4 : 4 ≤ mp) (hlen : table.length = fs.length) (hne : fs ≠ []) (hc : NoCrash isBad tryInt o1 o2 fs table) :
     fisherRank nan zero isBad mp tryInt o1 o2 fs table P r =
       some ((getFunctionsSlice (List.zip fs table) P r).map
         (fun p => fisherRow nan zero isBad mp tryInt p.2.1 (o1 p.1 p.2) (o2 p.1 p.2))) := by
@@ -109,7 +109,11 @@ theorem fisherRank_eq (nan zero : α) (isBad : α → Bool) (mp : Nat) (tryInt :
   have hw : ¬ derivWidth mp < 10 := by
     have : 4 * 5 ≤ mp * (mp + 1) := Nat.mul_le_mul h4 (by omega)
     unfold derivWidth; omega
-  simp only [hw, hl, if_false, hz]
+  have he : table.isEmpty = false := by
+    cases table with
+    | nil => exact absurd (List.length_eq_zero_iff.mp hlen.symm) hne
+    | cons _ _ => rfl
+  simp only [he, Bool.false_eq_true, hw, hl, if_false, hz]
   have hmem : ∀ p ∈ getFunctionsSlice (List.zip fs table) P r, p ∈ List.zip fs table := by
     intro p hp
     unfold getFunctionsSlice pySlice at hp
@@ -125,13 +129,13 @@ theorem fisherRank_eq (nan zero : α) (isBad : α → Bool) (mp : Nat) (tryInt :
 function: every rank completes and row `i` is computed from function `i` and stage-1 row `i` only, whatever `P`. -/
 theorem fisherFile_eq (nan zero : α) (isBad : α → Bool) (mp : Nat) (tryInt : Bool)
     (o1 o2 : φ → α × List α → Out (Conv α)) (fs : List φ) (table : List (α × List α)) (P : Nat) (hP : 1 ≤ P)
-    (h4 : 4 ≤ mp) (hlen : table.length = fs.length) (hc : NoCrash isBad tryInt o1 o2 fs table) :
+    (h4 : 4 ≤ mp) (hlen : table.length = fs.length) (hne : fs ≠ []) (hc : NoCrash isBad tryInt o1 o2 fs table) :
     fisherFile nan zero isBad mp tryInt o1 o2 fs table P =
       some ((List.zip fs table).map (fun p => fisherRow nan zero isBad mp tryInt p.2.1 (o1 p.1 p.2) (o2 p.1 p.2))) := by
   unfold fisherFile
   rw [mapM_some _ (fun r => (getFunctionsSlice (List.zip fs table) P r).map
         (fun p => fisherRow nan zero isBad mp tryInt p.2.1 (o1 p.1 p.2) (o2 p.1 p.2)))
-      _ (fun r _ => fisherRank_eq nan zero isBad mp tryInt o1 o2 fs table P r h4 hlen hc)]
+      _ (fun r _ => fisherRank_eq nan zero isBad mp tryInt o1 o2 fs table P r h4 hlen hne hc)]
   simp only [Option.map_some]
   congr 1
   rw [← List.flatMap_def]
@@ -139,9 +143,9 @@ theorem fisherFile_eq (nan zero : α) (isBad : α → Bool) (mp : Nat) (tryInt :
 
 theorem fisherFile_length (nan zero : α) (isBad : α → Bool) (mp : Nat) (tryInt : Bool)
     (o1 o2 : φ → α × List α → Out (Conv α)) (fs : List φ) (table : List (α × List α)) (P : Nat) (hP : 1 ≤ P)
-    (h4 : 4 ≤ mp) (hlen : table.length = fs.length) (hc : NoCrash isBad tryInt o1 o2 fs table) :
+    (h4 : 4 ≤ mp) (hlen : table.length = fs.length) (hne : fs ≠ []) (hc : NoCrash isBad tryInt o1 o2 fs table) :
     ∃ rows, fisherFile nan zero isBad mp tryInt o1 o2 fs table P = some rows ∧ rows.length = fs.length := by
-  refine ⟨_, fisherFile_eq nan zero isBad mp tryInt o1 o2 fs table P hP h4 hlen hc, ?_⟩
+  refine ⟨_, fisherFile_eq nan zero isBad mp tryInt o1 o2 fs table P hP h4 hlen hne hc, ?_⟩
   simp [List.length_zip, hlen]
 
 /-- a function whose stage-1 likelihood is NaN or infinite is never given a finite parameter code length: its row is
@@ -174,20 +178,36 @@ theorem noCrash_of_no_integration (isBad : α → Bool) (o1 o2 : φ → α × Li
   unfold fisherCrashes
   cases isBad p.2.1 <;> cases o1 p.1 p.2 <;> simp
 
+/-- F18 in the model: for an EMPTY function list (N = 0) the Fisher stage completes on NO rank count — `load_loglike`
+reads the empty stage-1 file as an array of shape (1,0) and `data[:,0]` raises on every rank (the hypothesis `fs ≠ []`
+of `fisherFile_eq` cannot be dropped) -/
+theorem fisherFile_empty (nan zero : α) (isBad : α → Bool) (mp : Nat) (tryInt : Bool)
+    (o1 o2 : φ → α × List α → Out (Conv α)) (fs : List φ) (P : Nat) (hP : 1 ≤ P) :
+    fisherFile nan zero isBad mp tryInt o1 o2 fs [] P = none := by
+  unfold fisherFile
+  obtain ⟨k, rfl⟩ : ∃ k, P = k + 1 := ⟨P - 1, by omega⟩
+  rw [List.range_succ_eq_map]
+  simp [fisherRank]
+
+/-- … while stage 1 does complete on an empty list (it writes an empty file), for every rank count -/
+theorem fitFile_empty (nan zero : α) (mp : Nat) (tryInt : Bool) (o1 o2 : φ → Out (α × List α)) (P : Nat) (hP : 1 ≤ P) :
+    fitFile nan zero mp tryInt o1 o2 ([] : List φ) P = [] := by
+  rw [fitFile_eq _ _ _ _ _ _ _ _ hP]; rfl
+
 /-! ### the two stages together -/
 
 /-- Stage 2 run on `P₂` ranks over the file stage 1 wrote on `P₁` ranks: one row per function, row `i` computed from
 function `i` and ITS OWN stage-1 row, for all `P₁, P₂ ≥ 1`. -/
 theorem two_stages_rank_independent (nan zero : α) (isBad : α → Bool) (comp : Nat) (tryInt : Bool)
     (f1 f2 : φ → Out (α × List α)) (o1 o2 : φ → α × List α → Out (Conv α)) (fs : List φ) (P₁ P₂ : Nat)
-    (h1 : 1 ≤ P₁) (h2 : 1 ≤ P₂)
+    (h1 : 1 ≤ P₁) (h2 : 1 ≤ P₂) (hne : fs ≠ [])
     (hc : NoCrash isBad tryInt o1 o2 fs (fs.map (fun f => fitRow nan zero (maxParam comp) tryInt (f1 f) (f2 f)))) :
     fisherFile nan zero isBad (maxParam comp) tryInt o1 o2 fs (fitFile nan zero (maxParam comp) tryInt f1 f2 fs P₁) P₂ =
       some (fs.map (fun f =>
         let row := fitRow nan zero (maxParam comp) tryInt (f1 f) (f2 f)
         fisherRow nan zero isBad (maxParam comp) tryInt row.1 (o1 f row) (o2 f row))) := by
   rw [fitFile_eq _ _ _ _ _ _ _ _ h1]
-  rw [fisherFile_eq nan zero isBad _ tryInt o1 o2 fs _ P₂ h2 (maxParam_ge comp).1 (by simp) hc]
+  rw [fisherFile_eq nan zero isBad _ tryInt o1 o2 fs _ P₂ h2 (maxParam_ge comp).1 (by simp) hne hc]
   congr 1
   rw [List.zip_map_right, List.map_map]
   have hz : ∀ l : List φ, l.zip l = l.map (fun f => (f, f)) := by
